@@ -417,7 +417,10 @@ func (e *cenv) sliceContentEq(a, b VSlice) *Term {
 		}
 		return ts.And(cs...)
 	}
-	return ts.And(ts.Eq(a.len, b.len), ts.Forall([]*Term{i}, body))
+	_ = body
+	rng := ts.And(ts.Le(ts.Int(0), i), ts.Lt(i, a.len))
+	eq := ts.Eq(ts.Select(aa, ts.Add(a.off, i)), ts.Select(bb, ts.Add(b.off, i)))
+	return ts.And(ts.Eq(a.len, b.len), ts.QuantIdx(true, i, rng, eq))
 }
 
 // viewArr gives the array a slice value reads from: its frozen view when it
@@ -606,10 +609,7 @@ func (e *cenv) call(x *CExpr) Value {
 				}
 			}
 			body := c.asBool(c.eval(bodyX), bodyX)
-			if f.Name == "forall" {
-				return VBool{ts.Forall([]*Term{bv}, ts.Implies(rng, body))}
-			}
-			return VBool{ts.Exists([]*Term{bv}, ts.And(rng, body))}
+			return VBool{ts.QuantIdx(f.Name == "forall", bv, rng, body)}
 		case "ite":
 			c := e.asBool(e.eval(args[0]), args[0])
 			a, b := e.eval(args[1]), e.eval(args[2])
